@@ -333,14 +333,12 @@ var ReplacementClasses = []string{"attested-unissued-nonce", "own-message", "oth
 // nearAddress returns an address of the same length that differs from a in a small, structured way: one bit, the
 // same change in two bytes that sit 1/2/4/8/16 positions apart, a compensating +k/-k pair, two bytes exchanged, the
 // bytes reversed or complemented. Whoever it is, it is not the account a names. Kinds are cycled.
-func (p *ProdGen) nearAddress(a []byte) []byte {
+func nearAddr(a []byte, k int) []byte {
 	b := append([]byte(nil), a...)
 	n := len(b)
 	if n == 0 {
 		return []byte{1}
 	}
-	p.nearN++
-	k := p.nearN
 	i := (k / 12) % n
 	mask := []byte{0x01, 0x80, 0xff, 0x5a}[(k/7)%4]
 	pair := func(d int) {
@@ -395,6 +393,11 @@ func (p *ProdGen) nearAddress(a []byte) []byte {
 		b[0] ^= 0x01
 	}
 	return b
+}
+
+func (p *ProdGen) nearAddress(a []byte) []byte {
+	p.nearN++
+	return nearAddr(a, p.nearN)
 }
 
 // FailingProducer returns a producer message that must fail for the named reason.
